@@ -19,7 +19,14 @@ Inductive case :=
           (hist : list (list nat)) (shared fresh : list (option float)) (dicts : list ftab)
   (* mip(points, red) = out; fin / refs: compute_global_rmse (fresh dict) of red and of red without its i-th element *)
   | CMip (pts : list fpt) (sqtab : ftab) (red : list nat) (out : option (float * float))
-         (fin : option float) (refs : list (option float)).
+         (fin : option float) (refs : list (option float))
+  (* ONE call compute_global_cost(points, red, metric) — no cache argument, or a dict whose contents the caller does not
+     inspect — = out; a step of a multi-call sequence on one points buffer (contents at the time of the call: pts) *)
+  | CCost (m : metric) (pts : list fpt) (segtab : ftab) (tssv : float) (red : list nat) (out : option float)
+  (* ONE call compute_global_rmse(points, red) = out *)
+  | CRm (pts : list fpt) (sqtab : ftab) (red : list nat) (out : option float)
+  (* a sequence of calls made on the SAME points ndarray (refilled in place between calls): every call is judged *)
+  | CSeq (steps : list case).
 
 Definition oracle (tab : ftab) (l r : nat) : float :=
   match lookup (l, r) tab with Some v => v | None => nan end.
@@ -69,7 +76,7 @@ Definition first_false (l : list bool) : Z :=
 Definition metric_atol (m : metric) : float :=
   match m with MRmsle => 0x1p-30%float | _ => 0x1p-60%float end.
 
-Definition judge (c : case) : Z :=
+Definition judge1 (c : case) : Z :=
   match c with
   | CHist m pts segtab tssv hist shared fresh dicts =>
       let n := length pts in
@@ -150,11 +157,39 @@ Definition judge (c : case) : Z :=
         end
       ] in
       (100 * a + h)%Z
+  | _ => 600%Z
   end.
 
-(* the model's own outputs, for replay files *)
-Definition show (c : case) : list float * list fdict :=
+(* a single call is judged as a one-query history; the dict it would leave is not observed, so the model's own is supplied *)
+Definition lift (c : case) : case :=
   match c with
+  | CCost m pts segtab tssv red out =>
+      CHist m pts segtab tssv [red] [out] [out]
+            (map snd (@run_shared FloatNum (length pts) (oracle segtab) tssv m (@empty_cache FloatNum) [red]))
+  | CRm pts sqtab red out =>
+      CRmse pts sqtab [red] [out] [out] (map snd (@rmse_shared FloatNum (length pts) (oracle sqtab) [] [red]))
+  | _ => c
+  end.
+(* a sequence: a step whose predicate is false decides; else a disagreeing step; else agreement; 600 if no step is in the domain *)
+Definition combine (codes : list Z) : Z :=
+  match find (fun c => negb (c / 100 =? 6)%Z && negb (c mod 100 =? 0)%Z) codes with
+  | Some c => c
+  | None =>
+      match find (fun c => negb (c / 100 =? 6)%Z && negb (c =? 0)%Z) codes with
+      | Some c => c
+      | None => if existsb (fun c => (c =? 0)%Z) codes then 0%Z else 600%Z
+      end
+  end.
+Fixpoint judge (c : case) : Z :=
+  match c with
+  | CSeq steps => combine (map judge steps)
+  | _ => judge1 (lift c)
+  end.
+
+
+(* the model's own outputs, for replay files *)
+Definition show1 (c : case) : list float * list fdict :=
+  match lift c with
   | CHist m pts segtab tssv hist _ _ _ =>
       let run := @run_shared FloatNum (length pts) (oracle segtab) tssv m (@empty_cache FloatNum) hist in
       (map fst run, map snd run)
@@ -164,4 +199,10 @@ Definition show (c : case) : list float * list fdict :=
   | CMip pts sqtab red _ _ _ =>
       let mo := @mip FloatNum (length pts) (oracle sqtab) red in
       ([fst mo; snd mo], [])
+  | _ => ([], [])
+  end.
+Definition show (c : case) : list (list float * list fdict) :=
+  match c with
+  | CSeq steps => map show1 steps
+  | _ => [show1 c]
   end.
